@@ -51,9 +51,13 @@ GEN_MODELS = {
     'gen:logit_shared': ('ADVAN1 TRANS2', ['TVCL = THETA(1)*(WGT/70)**THETA(3)', 'CL = TVCL*EXP(ETA(1))',
                                            'V = THETA(2)*EXP(ETA(2) + 0.5*ETA(1))',
                                            'F1 = EXP(THETA(4)+ETA(1))/(1+EXP(THETA(4)+ETA(1)))', 'S1 = V'], False),
+    # a parameter of the ODE system is assigned again after the ODE system
+    'gen:reassign_after_ode': ('ADVAN1 TRANS2', ['CL = THETA(1)*EXP(ETA(1))', 'V = THETA(2)*EXP(ETA(2))', 'S1 = V'],
+                               False, ['V = V/WGT', 'CONC = F*V', 'Y = CONC + CONC*EPS(1)']),
 }
 # quick tier visits these first (small models + the generated ones), the rest in seeded order within the budget
 PRIORITY = ['minimal.mod', 'pheno_pd.mod', 'models/mox2.mod', 'models/pheno5.mod', 'gen:eta_forms', 'gen:logit_shared',
+            'gen:reassign_after_ode',
             'pheno_real.mod', 'example:pheno_linear']
 _MODELS = {}
 
@@ -74,8 +78,9 @@ def get_start(label):
     elif label.startswith('gen:'):
         sys.path.insert(0, os.path.dirname(os.path.abspath(__file__)))
         import C01
-        sub, pk, three = GEN_MODELS[label]
-        text = C01.pk_program(sub, pk)
+        sub, pk, three = GEN_MODELS[label][:3]
+        err = GEN_MODELS[label][3] if len(GEN_MODELS[label]) > 3 else None
+        text = C01.pk_program(sub, pk, error=err)
         if three:
             text = text.replace('$OMEGA 0.2', '$OMEGA 0.2\n$OMEGA 0.3')
         m = pm.read_model_from_string(text)
